@@ -72,6 +72,17 @@ def cases(tier, seed):
                 if ln == 3 and len(set(lst)) < 3:
                     continue
                 yield ['e2e', opt, list(lst)]
+    # --module (and multi-pattern --test) end to end on modules discovered on
+    # disk: shared with C03's real-discovery worlds
+    yield from _m_cases()
+
+
+def _m_cases():
+    from vt.props import c03
+    for rk in ('one', 'pkg+subpkg'):
+        for fi, flt in enumerate(c03.DISK_FILTERS):
+            if '-m' in flt or len(flt) >= 4:
+                yield ['e2e_disk', rk, fi]
 
 
 def setup_worker():
@@ -184,6 +195,12 @@ def run_case(case):
                          'case': case})
         return {'evals': evals, 'nontrivial': nt, 'violations': viol,
                 'outcome': 'pure'}
+    if case[0] == 'e2e_disk':
+        from vt.props import c03
+        viol = c03.run_disk_case(case[1], case[2])
+        for v in viol:
+            v['sig'] = {'opt': '-m/-t on disk'}
+        return {'evals': 2, 'nontrivial': 2, 'violations': viol, 'outcome': 'e2e_disk'}
     _, opt, lst = case
     argv = []
     for p in lst:
